@@ -494,6 +494,8 @@ func parseSearchQuery(query, countryCode string, withLogin bool) ([][]string, []
 		quo bool
 		// Current token is a quoted string
 		unquote bool
+		// Previous rune closed a quoted string
+		closed bool
 		// Start of the current token
 		start int
 		// End of the current token
@@ -525,10 +527,13 @@ func parseSearchQuery(query, countryCode string, withLogin bool) ([][]string, []
 			}
 		}
 
+		// The quote was opened or closed by the current rune.
+		var opened, closed bool
 		if curr == QUO {
 			if ctx.quo {
 				// End of the quoted string. Close the quote.
 				ctx.quo = false
+				closed = true
 			} else {
 				if prev == ORD {
 					// Reject strings like a"b
@@ -536,10 +541,14 @@ func parseSearchQuery(query, countryCode string, withLogin bool) ([][]string, []
 				}
 				// Start of the quoted string. Open the quote.
 				ctx.quo = true
-				ctx.unquote = true
+				opened = true
 			}
 			curr = ORD
+		} else if curr == ORD && ctx.closed {
+			// Reject strings like "a"b
+			return nil, nil, fmt.Errorf("missing operator at or near %d", pos)
 		}
+		ctx.closed = closed
 
 		// Parser: process the current lexem in context.
 		switch curr {
@@ -578,7 +587,8 @@ func parseSearchQuery(query, countryCode string, withLogin bool) ([][]string, []
 		}
 
 		if emit {
-			if ctx.quo {
+			// The token being emitted precedes the quote which has just been opened.
+			if ctx.quo && !opened {
 				return nil, nil, fmt.Errorf("unterminated quoted string at or near %d", pos)
 			}
 
@@ -609,6 +619,11 @@ func parseSearchQuery(query, countryCode string, withLogin bool) ([][]string, []
 			ctx.preOp = ctx.postOp
 			ctx.postOp = NONE
 			ctx.unquote = false
+		}
+
+		if opened {
+			// The quote belongs to the token which starts here, not to the one just emitted.
+			ctx.unquote = true
 		}
 
 		prev = curr
